@@ -209,6 +209,10 @@ impl<'tcx> Cx<'tcx> {
         let ga = self.tcx.try_get_global_alloc(alloc_id)?;
         let mem = match ga {
             rustc_middle::mir::interpret::GlobalAlloc::Memory(m) => m,
+            rustc_middle::mir::interpret::GlobalAlloc::Static(did) => match self.tcx.eval_static_initializer(did) {
+                Ok(m) => m,
+                Err(_) => return None,
+            },
             _ => return None,
         };
         let a = mem.inner();
@@ -276,6 +280,32 @@ impl<'tcx> Cx<'tcx> {
             }
         } else if ty.is_floating_point() {
             parts.push(format!("\"float\":{}", q(&format!("{:?}", c.const_))));
+        } else if let ty::Ref(_, inner, _) = ty.kind()
+            && (inner.is_integral() || inner.is_bool())
+        {
+            // a reference to a scalar constant (e.g. a promoted `&CONST`): export the pointee
+            if let Ok(val) = c.const_.eval(tcx, env, c.span) {
+                if let ConstValue::Scalar(mir::interpret::Scalar::Ptr(ptr, _)) = val {
+                    let (prov, off) = ptr.into_raw_parts();
+                    if let Ok(layout) = tcx.layout_of(env.as_query_input(*inner)) {
+                        let n = layout.size.bytes() as usize;
+                        if let Some(b) = self.bytes_of_alloc(prov.alloc_id(), off.bytes() as usize, n) {
+                            let mut v: u128 = 0;
+                            for (i, x) in b.iter().enumerate() {
+                                v |= (*x as u128) << (8 * i);
+                            }
+                            let sv: String = if inner.is_signed() {
+                                let sh = 128 - 8 * n as u32;
+                                (((v as i128) << sh) >> sh).to_string()
+                            } else {
+                                v.to_string()
+                            };
+                            parts.push(format!("\"int\":{},\"via_ref\":true", q(&sv)));
+                            parts[0] = format!("\"ty\":{}", q(&self.tys(*inner)));
+                        }
+                    }
+                }
+            }
         } else if let ty::Ref(..) = ty.kind() {
             if let Ok(val) = c.const_.eval(tcx, env, c.span) {
                 if let Some(b) = self.const_bytes(val, ty) {
